@@ -119,7 +119,8 @@ impl Scenario for C19 {
                 18 => "junk_notcontrol",
                 19 => "junk_marker",
                 20 => "junk_truncated",
-                21 | 22 => "gap",
+                21 => "gap",
+                22 => if r.chance(1, 2) { "gap" } else { "kill" },
                 _ => "checkpoint",
             };
             let target = if r.chance(1, 6) { 100 } else { r.below(u64::from(n_procs)) as u32 };
@@ -174,7 +175,7 @@ impl Scenario for C19 {
             components_stubbed: &["TCP (SimNet)", "EPMD (stub)", "remote node (scripted peer, independent encoder)"],
             assumptions: &["mid-frame delays stay below the read timeout; only idle gaps are long", "the peer's ticks are what a conforming OTP node sends (zero-length frames at its tick period)"],
             fault_prefixes: &["fault.", "net."],
-            expected_probes: &["probe.c19.delivered_send", "probe.c19.delivered_reg_send", "probe.c19.delivered_exit", "probe.c19.delivered_mon_exit", "probe.c19.rpc_reply_delivered", "probe.c19.dropped_unknown_recipient", "probe.c19.survived_junk", "probe.c19.survived_quiet_period", "probe.c19.deregistered_after_fatal", "probe.c19.reconnected", "probe.c19.checkpoint_ok", "probe.c19.near_miss_not_taken_as_reply"],
+            expected_probes: &["probe.c19.delivered_send", "probe.c19.delivered_reg_send", "probe.c19.delivered_exit", "probe.c19.delivered_mon_exit", "probe.c19.rpc_reply_delivered", "probe.c19.dropped_unknown_recipient", "probe.c19.survived_junk", "probe.c19.survived_quiet_period", "probe.c19.deregistered_after_fatal", "probe.c19.reconnected", "probe.c19.checkpoint_ok", "probe.c19.near_miss_not_taken_as_reply", "probe.c19.killed_process_prefix_ok"],
         }
     }
 }
@@ -209,6 +210,9 @@ fn payload(kind: &str, k: usize, seed: u64) -> Val {
 struct Expect {
     per_proc: Vec<Vec<Got>>,
     rpc_reply: Option<Val>,
+    /// processes that a local task was asked to kill while frames were in flight: for them only a
+    /// prefix of the expected deliveries is required
+    killed: Vec<bool>,
 }
 
 fn build_frame(p: &Plan, k: usize, f: &InFrame, pids: &[Val], rpc_from: &Option<Val>, exp: &mut Expect) -> Option<Vec<u8>> {
@@ -316,6 +320,7 @@ async fn peer_conn(
     ps: Arc<Mutex<PeerShared>>,
     exp: Arc<Mutex<Expect>>,
     ckpt: mpsc::UnboundedSender<(usize, oneshot::Sender<()>)>,
+    kill_tx: mpsc::UnboundedSender<usize>,
     second: bool,
 ) {
     let ServerConn { mut read, mut write, s2c, .. } = conn;
@@ -415,6 +420,17 @@ async fn peer_conn(
                 w.stat("c19.gap");
                 tokio::time::sleep(Duration::from_millis(f.gap_ms)).await;
             }
+            "kill" => {
+                let t = f.target as usize;
+                // never the last live process (probes and local traffic need one)
+                let live_left = (0..pids.len()).filter(|i| !(p.kill_first && *i == 0) && !exp.lock().unwrap().killed[*i]).count();
+                if t < pids.len() && !(p.kill_first && t == 0) && live_left > 1 && !(t == if p.kill_first { 1 } else { 0 }) {
+                    exp.lock().unwrap().killed[t] = true;
+                    w.stat("fault.process_killed_during_inbound_traffic");
+                    w.ev(format!("peer script: asks for process {} to be killed", t));
+                    let _ = kill_tx.send(t);
+                }
+            }
             "checkpoint" => {
                 let (a, b) = oneshot::channel();
                 if ckpt.send((k, a)).is_ok() {
@@ -477,7 +493,7 @@ async fn scenario(w: &Arc<World>, p: &Plan) {
     let hist: Hist = Arc::new(Mutex::new(History::default()));
     let mut pids_ext = Vec::new();
     for i in 0..p.n_procs as usize {
-        let rec = Recorder { idx: i, hist: hist.clone(), world: w.clone(), stall_16: p.proc_stall_16, max_stall_ms: 3 };
+        let rec = Recorder { idx: i, hist: hist.clone(), world: w.clone(), stall_16: p.proc_stall_16, max_stall_ms: if p.frames.iter().any(|f| f.kind == "kill") { 200 } else { 3 } };
         match node.spawn(rec).await {
             Ok(pid) => pids_ext.push(pid),
             Err(e) => {
@@ -500,8 +516,17 @@ async fn scenario(w: &Arc<World>, p: &Plan) {
         }
     }
     let ps = Arc::new(Mutex::new(PeerShared { rpc_from: None, fatal_at_ms: None, script_done: false, sent_upto: 0, max_silence_ms: 0 }));
-    let exp = Arc::new(Mutex::new(Expect { per_proc: vec![Vec::new(); p.n_procs as usize], rpc_reply: None }));
+    let exp = Arc::new(Mutex::new(Expect { per_proc: vec![Vec::new(); p.n_procs as usize], rpc_reply: None, killed: vec![false; p.n_procs as usize] }));
     let (ck_tx, mut ck_rx) = mpsc::unbounded_channel::<(usize, oneshot::Sender<()>)>();
+    let (kill_tx, mut kill_rx) = mpsc::unbounded_channel::<usize>();
+    {
+        let (node_k, pids_k) = (node.clone(), pids_ext.clone());
+        tokio::spawn(async move {
+            while let Some(t) = kill_rx.recv().await {
+                let _ = node_k.send(&pids_k[t], from_val(&poison())).await;
+            }
+        });
+    }
     {
         let (p2, pids2, ps2, exp2) = (p.clone(), pids.clone(), ps.clone(), exp.clone());
         install_conforming_peer(
@@ -510,7 +535,7 @@ async fn scenario(w: &Arc<World>, p: &Plan) {
             OTP_FLAGS_BASE,
             move |w, conn, _seen| {
                 let second = conn.conn_index > 0;
-                Box::pin(peer_conn(w, conn, p2.clone(), pids2.clone(), ps2.clone(), exp2.clone(), ck_tx.clone(), second))
+                Box::pin(peer_conn(w, conn, p2.clone(), pids2.clone(), ps2.clone(), exp2.clone(), ck_tx.clone(), kill_tx.clone(), second))
             },
         );
     }
@@ -666,6 +691,13 @@ async fn scenario(w: &Arc<World>, p: &Plan) {
                 }
             }
             continue;
+        }
+        if exp.killed[i] {
+            let is_prefix = got_remote.len() <= want.len() && got_remote.iter().zip(want.iter()).all(|(a, b)| a == b);
+            if is_prefix {
+                w.stat("probe.c19.killed_process_prefix_ok");
+                continue;
+            }
         }
         if !healthy {
             // already reported; the missing tail is the consequence
